@@ -24,7 +24,11 @@ func TestReplay(t *testing.T) { pbt.Replay(t) }
 
 // Action is one step of a history over shared session stores.
 type Action struct {
-	Kind string `json:"kind"` // connect, mutate, alert, overlap
+	// connect, mutate, alert, overlap, import (the Side of the last connection is serialised and resumed with
+	// ResumeWithOptions on the same stores, the connection stays "last"), race (a second connection to the same
+	// name offers the stored session and is stalled; the last connection's client sends a fatal alert; the
+	// stalled connection then completes)
+	Kind string `json:"kind"`
 	// connect / overlap
 	Name  int          `json:"name,omitempty"` // which server name (client store key)
 	FC    []vnet.Fault `json:"fc,omitempty"`
@@ -106,6 +110,10 @@ type connResult struct {
 	cCID, sCID  []byte
 	pair        *scen.Pair
 	key         string
+	sid         []byte // session id of the established connection as the client holds it
+	ssid        []byte // ... as the server holds it (empty when the server did not keep the session)
+	cEP, sEP    scen.EP
+	act         Action
 }
 
 func isAbbreviated(p *scen.Pair) bool {
@@ -140,6 +148,7 @@ func run(c Case, r *pbt.R) {
 		var last *connResult
 		resumptions, mutations, lossyAbbrev := 0, 0, 0
 		alerted := map[string]bool{}      // "C:<key>" / "S:<hex id>" sessions on which a fatal alert was sent
+		alertedSid := map[string][]byte{} // "C:<key>" -> id of the session the client sent the fatal alert on
 		certSessions := map[string]bool{} // ids of sessions in whose full handshake the client presented a certificate
 		connect := func(a *Action) *connResult {
 			cEP, sEP := epsFor(&c, a)
@@ -159,7 +168,7 @@ func run(c Case, r *pbt.R) {
 			p.Net.Faults["C"] = a.FC
 			p.Net.Faults["S"] = a.FS
 			p.Handshake(20 * time.Minute)
-			res := &connResult{pair: p, key: key}
+			res := &connResult{pair: p, key: key, cEP: cEP, sEP: sEP, act: *a}
 			res.abbreviated = isAbbreviated(p)
 			res.ok = p.C.OK() && p.S.OK()
 			if p.C.OK() != p.S.OK() {
@@ -175,12 +184,17 @@ func run(c Case, r *pbt.R) {
 					}
 				}
 			}
+			if sid, known := alertedSid["C:"+key]; known && !bytes.Equal(sid, offered) {
+				// the entry was legitimately replaced by a full handshake of another connection meanwhile
+				delete(alerted, "C:"+key)
+			}
 			if alerted["C:"+key] && len(offered) > 0 && offeredBefore && bytes.Equal(offered, ce.ID) {
 				r.Failf("C14|session-offered-after-fatal-alert|client", "client offers session %x again although it sent a fatal alert on it", offered)
 
 				return res
 			}
 			delete(alerted, "C:"+key)
+			delete(alertedSid, "C:"+key)
 			if res.ok && res.abbreviated {
 				resumptions++
 				if p.Net.EffectiveFaults() > 0 {
@@ -210,6 +224,8 @@ func run(c Case, r *pbt.R) {
 
 					return res
 				}
+				res.sid = bytes.Clone(stc.SessionID)
+				res.ssid = bytes.Clone(sts.SessionID)
 				if !res.abbreviated && cEP.Cert != "" && sEP.ClientAuth > 0 && len(sts.PeerCertificates) > 0 {
 					certSessions[string(stc.SessionID)] = true
 					r.Class("client-certificate-session")
@@ -283,6 +299,62 @@ func run(c Case, r *pbt.R) {
 				if mutate(cs, ss, a) {
 					mutations++
 				}
+			case "import":
+				if last == nil || !last.ok {
+					continue
+				}
+				sd, ep := last.pair.C, &last.cEP
+				if a.Side == "S" {
+					sd, ep = last.pair.S, &last.sEP
+				}
+				if _, err := last.pair.ExportImport(sd, env, ep, nil); err != nil {
+					r.Failf("C14|harness|import", "export/import of side %s: %v", a.Side, err)
+
+					return
+				}
+				_ = sd.Conn.Handshake()
+				scen.Settle()
+				r.Class("imported-connection")
+			case "race":
+				if last == nil || !last.ok || len(last.sid) == 0 {
+					continue
+				}
+				if v, ok := cs.Snapshot()[last.key]; !ok || !bytes.Equal(v.ID, last.sid) {
+					continue // the store no longer offers the session of the last connection
+				}
+				// B offers the stored session; everything the server answers is lost for the moment
+				cEP, sEP := last.cEP, last.sEP
+				b := scen.NewPair(env, &cEP, &sEP)
+				open = append(open, b)
+				b.Net.Blocked["S"] = true
+				sdone := b.S.StartHandshake(20 * time.Minute)
+				cdone := b.C.StartHandshake(20 * time.Minute)
+				scen.Settle()
+				// A's client sends a fatal alert: the session leaves the client's store
+				last.pair.Net.Inject("S", "C", []byte{23, 0xfe, 0xfd, 0, 0, 0, 0, 0, 0, 0, 78, 0, 1, 0x41})
+				scen.Settle()
+				if v, ok := cs.Snapshot()[last.key]; ok && bytes.Equal(v.ID, last.sid) {
+					r.Failf("C14|session-kept-after-fatal-alert|client", "client store still holds session %x under %q after the client sent a fatal alert on it", last.sid, last.key)
+
+					return
+				}
+				b.Net.Blocked["S"] = false
+				<-sdone
+				<-cdone
+				scen.Settle()
+				if v, ok := cs.Snapshot()[last.key]; ok && bytes.Equal(v.ID, last.sid) {
+					r.Failf("C14|session-restored-after-fatal-alert|client", "the client sent a fatal alert on session %x and dropped it; a connection that had offered it before (completed: C=%v S=%v, abbreviated=%v) put it back into the store under %q",
+						last.sid, b.C.OK(), b.S.OK(), isAbbreviated(b), last.key)
+
+					return
+				}
+				alerted["C:"+last.key] = true
+				alertedSid["C:"+last.key] = last.sid
+				r.Class("alert-raced-with-pending-resumption")
+				if b.C.OK() && b.S.OK() && isAbbreviated(b) {
+					r.Class("alert-raced-with-pending-resumption:abbreviated-completed")
+				}
+				last = nil
 			case "alert":
 				if last == nil || !last.ok {
 					continue
@@ -292,9 +364,13 @@ func run(c Case, r *pbt.R) {
 				if a.Side == "C" {
 					side, from = p.C, "S"
 				}
-				st, ok := side.Conn.ConnectionState()
-				if !ok {
+				if _, ok := side.Conn.ConnectionState(); !ok {
 					continue
+				}
+				// the session the connection was established on (also after an export/import of this side)
+				st := struct{ SessionID []byte }{last.sid}
+				if side.Name == "S" {
+					st.SessionID = last.ssid
 				}
 				// an unprotected application_data record makes the endpoint send a fatal unexpected_message alert
 				p.Net.Inject(from, side.Name, []byte{23, 0xfe, 0xfd, 0, 0, 0, 0, 0, 0, 0, 77, 0, 1, 0x41})
@@ -487,12 +563,12 @@ func gen(t *rapid.T) Case {
 			if c.Family == "cert" {
 				a.CAuth = rapid.SampledFrom([]int{0, 0, 0, 0, 1, 2, 3, 4, 5}).Draw(t, "cauth")
 			}
-		case k <= 8:
+		case k <= 7:
 			a.Kind = "mutate"
 			a.Mut = rapid.SampledFrom(muts).Draw(t, "mut")
 			a.Arg = rapid.IntRange(0, 255).Draw(t, "arg")
 		default:
-			a.Kind = "alert"
+			a.Kind = rapid.SampledFrom([]string{"alert", "alert", "import", "race"}).Draw(t, "akind")
 			a.Side = rapid.SampledFrom([]string{"C", "S"}).Draw(t, "side")
 		}
 		c.Actions = append(c.Actions, a)
@@ -505,7 +581,7 @@ func init() {
 	pbt.Register(pbt.Prop[Case]{
 		Name: "resumption-histories", Quick: 1500, Thorough: 40000, Gen: gen, Run: run, Crashy: true,
 		Rule: "history of <=12 actions over one client and one server session store (recording, harness-owned): connect (server name, fault mask on the flights, EMS, suite list, CID), " +
-			"overlapping connects, store mutations (delete / flip a byte / truncate / swap secrets / swap ids / inject a foreign entry), provoked fatal alert on the last connection; " +
+			"overlapping connects, store mutations (delete / flip a byte / truncate / swap secrets / swap ids / inject a foreign entry), provoked fatal alert on the last connection, export/import of one side of the last connection (ResumeWithOptions on the same stores) before the alert, and a fatal alert raced with a second, stalled connection that had already offered the session; " +
 			"oracle after every step: both-succeeded => keys agree (exporter equal, data flows); a successful abbreviated handshake only when both stores held the same secret for the offered id; " +
 			"hello randoms and exporter output never repeat; connection IDs are the freshly generated ones; after a fatal alert the sender's store no longer holds the session and it is not " +
 			"offered/resumed again. non-trivial = >=1 successful resumption and (>=1 store mutation or loss in an abbreviated flight); distinct = action sequence",
